@@ -273,10 +273,22 @@ class RouteCQC:
         """
         two_qubit_circuit = circuits.Circuit()
         single_qubit_ops: list[list[cirq.Operation]] = []
+        # The timestep of the last single-qubit operation on each qubit and measurement key:
+        # the two-qubit skeleton does not know about them, and an operation must not be placed
+        # before an operation it depends on (e.g. a classical control before its measurement).
+        last_single_op_timestep: dict[Any, int] = {}
 
         for i, moment in enumerate(circuit):
             for op in moment:
                 timestep = two_qubit_circuit.earliest_available_moment(op)
+                wires = [
+                    *op.qubits,
+                    *protocols.measurement_key_objs(op),
+                    *protocols.control_keys(op),
+                ]
+                timestep = max([timestep, *(last_single_op_timestep.get(w, 0) for w in wires)])
+                if protocols.num_qubits(op) != 2:
+                    last_single_op_timestep.update((w, timestep) for w in wires)
                 single_qubit_ops.extend([] for _ in range(timestep + 1 - len(single_qubit_ops)))
                 two_qubit_circuit.append(
                     circuits.Moment() for _ in range(timestep + 1 - len(two_qubit_circuit))
